@@ -61,12 +61,159 @@ func runC05(c *an.Ctx) {
 		return
 	}
 	in := func(cc *ast.CaseClause, n ast.Node) bool { return inArm(el, cc, n) }
-	argOf := func(call *ast.CallExpr) string {
-		if len(call.Args) == 0 {
-			return ""
+
+	// ---- roles, found by type and data flow (not by the names the code happens to use)
+	typeOf := func(e ast.Expr) string {
+		if tv, ok := info.Types[e]; ok && tv.Type != nil {
+			return an.TypeName(tv.Type)
 		}
-		return an.Str(call.Args[0])
+		return ""
 	}
+	// listKind: executeList(X.List / X.ElseList) with X an *IfNode or *RangeNode
+	listKind := func(call *ast.CallExpr) (stmt, which string) {
+		if !an.IsCallTo(info, call, execList) || len(call.Args) != 1 {
+			return "", ""
+		}
+		sel, ok := an.Unparen(call.Args[0]).(*ast.SelectorExpr)
+		if !ok {
+			return "", ""
+		}
+		switch typeOf(sel.X) {
+		case "*jet.IfNode":
+			stmt = "if"
+		case "*jet.RangeNode":
+			stmt = "range"
+		default:
+			return "", ""
+		}
+		switch sel.Sel.Name {
+		case "List":
+			which = "then"
+		case "ElseList":
+			which = "else"
+		default:
+			return stmt, "other:" + sel.Sel.Name
+		}
+		return
+	}
+	elseNil := func(st *an.State) bool { // X.ElseList != nil established
+		for k, v := range st.Facts {
+			pk := an.PlainKey(k)
+			if !v && (strings.HasSuffix(pk, ".ElseList == nil") || strings.HasPrefix(pk, "nil == ") && strings.HasSuffix(pk, ".ElseList")) {
+				return true
+			}
+		}
+		return false
+	}
+	idxVars, valVars, endVars := map[types.Object]bool{}, map[types.Object]bool{}, map[types.Object]bool{}
+	bodyTmp := map[types.Object]bool{}  // variables receiving the value of a range body execution
+	var condEvals []*ast.CallExpr       // evaluations of an if's condition
+	condVars := map[types.Object]bool{} // variables holding such an evaluation
+	an.InspectOwn(el, func(n ast.Node) bool {
+		as, ok := n.(*ast.AssignStmt)
+		if !ok || len(as.Rhs) != 1 {
+			return true
+		}
+		call, ok := an.Unparen(as.Rhs[0]).(*ast.CallExpr)
+		if !ok {
+			return true
+		}
+		if an.IsCallTo(info, call, "(jet.Ranger).Range") && len(as.Lhs) == 3 {
+			for i, m := range []map[types.Object]bool{idxVars, valVars, endVars} {
+				if id, ok := as.Lhs[i].(*ast.Ident); ok && id.Name != "_" {
+					m[an.ObjOf(info, id)] = true
+				}
+			}
+		}
+		if st, which := listKind(call); st == "range" && which == "then" && len(as.Lhs) == 1 {
+			if id, ok := as.Lhs[0].(*ast.Ident); ok {
+				bodyTmp[an.ObjOf(info, id)] = true
+			}
+		}
+		return true
+	})
+	isCondEval := func(call *ast.CallExpr) bool {
+		if !an.IsCallTo(info, call, "(*jet.Runtime).evalPrimaryExpressionGroup") || len(call.Args) != 1 {
+			return false
+		}
+		sel, ok := an.Unparen(call.Args[0]).(*ast.SelectorExpr)
+		return ok && sel.Sel.Name == "Expression" && typeOf(sel.X) == "*jet.IfNode"
+	}
+	an.InspectOwn(el, func(n ast.Node) bool {
+		switch v := n.(type) {
+		case *ast.CallExpr:
+			if isCondEval(v) {
+				condEvals = append(condEvals, v)
+			}
+		case *ast.AssignStmt:
+			if len(v.Lhs) == 1 && len(v.Rhs) == 1 {
+				if call, ok := an.Unparen(v.Rhs[0]).(*ast.CallExpr); ok && isCondEval(call) {
+					if id, ok := v.Lhs[0].(*ast.Ident); ok {
+						condVars[an.ObjOf(info, id)] = true
+					}
+				}
+			}
+		}
+		return true
+	})
+	identIn := func(e ast.Expr, set map[types.Object]bool) (string, bool) {
+		id, ok := an.Unparen(e).(*ast.Ident)
+		if !ok {
+			return "", false
+		}
+		return id.Name, set[an.ObjOf(info, id)]
+	}
+	anyFact := func(st *an.State, set map[types.Object]bool, val bool) bool {
+		for o := range set {
+			if an.FactIs(st, o.Name(), val) {
+				return true
+			}
+		}
+		return false
+	}
+	// slotOf: the variable S in  X.Set.Left[S]  (X a *RangeNode) anywhere inside e
+	slotOf := func(e ast.Node) *ast.Ident {
+		var slot *ast.Ident
+		ast.Inspect(e, func(m ast.Node) bool {
+			ix, ok := m.(*ast.IndexExpr)
+			if !ok {
+				return true
+			}
+			if sel, ok := an.Unparen(ix.X).(*ast.SelectorExpr); ok && sel.Sel.Name == "Left" {
+				if inner, ok := an.Unparen(sel.X).(*ast.SelectorExpr); ok && inner.Sel.Name == "Set" && typeOf(inner.X) == "*jet.RangeNode" {
+					if id, ok := an.Unparen(ix.Index).(*ast.Ident); ok {
+						slot = id
+					}
+				}
+			}
+			return true
+		})
+		return slot
+	}
+	// the slot variable that selects the value variable: the one bound to a Range() value somewhere
+	var valSlot types.Object
+	noteSlot := func(target ast.Node, value ast.Expr) {
+		if s := slotOf(target); s != nil {
+			if _, isVal := identIn(value, valVars); isVal {
+				valSlot = an.ObjOf(info, s)
+			}
+		}
+	}
+	an.InspectOwn(el, func(n ast.Node) bool {
+		switch v := n.(type) {
+		case *ast.AssignStmt:
+			if len(v.Lhs) == 1 && len(v.Rhs) == 1 {
+				if ix, ok := an.Unparen(v.Lhs[0]).(*ast.IndexExpr); ok && p.FieldKey(info, ix.X) == "scope.variables" {
+					noteSlot(ix.Index, v.Rhs[0])
+				}
+			}
+		case *ast.CallExpr:
+			if an.IsCallTo(info, v, "(*jet.Runtime).executeSet") && len(v.Args) == 2 {
+				noteSlot(v.Args[0], v.Args[1])
+			}
+		}
+		return true
+	})
 
 	// one exploration of executeList carries the registers of both arms
 	var ifBad, loopBad, bindBad []pairFinding
@@ -78,94 +225,182 @@ func runC05(c *an.Ctx) {
 		}
 		*list = append(*list, pairFinding{pos, msg, an.Facts(st)})
 	}
+	// binding of one loop variable: the slot decides key or value, and must be known to be >= 0
+	checkBind := func(st *an.State, target ast.Node, value ast.Expr, pos token.Pos) {
+		s := slotOf(target)
+		if s == nil {
+			return
+		}
+		vname, isVal := identIn(value, valVars)
+		_, isIdx := identIn(value, idxVars)
+		so := an.ObjOf(info, s)
+		switch {
+		case so == valSlot && !isVal:
+			addOnce(&bindBad, pos, fmt.Sprintf("the variable in the value slot (%s) is bound to %s instead of the current element's value", s.Name, an.Str(value)), st)
+		case so != valSlot && !isIdx:
+			addOnce(&bindBad, pos, fmt.Sprintf("the variable in the key slot (%s) is bound to %s instead of the current element's index/key", s.Name, an.Str(value)), st)
+		}
+		_ = vname
+		if !an.FactIs(st, s.Name+" < 0", false) {
+			addOnce(&bindBad, pos, fmt.Sprintf("the variable in slot %s is bound on a path where %s >= 0 was not established", s.Name, s.Name), st)
+		}
+	}
+	resetIf := func(st *an.State) {
+		st.Set("if:cond", "")
+		st.Set("if:then", "")
+		st.Set("if:else", "")
+		st.Set("if:br", "")
+	}
+	resetRange := func(st *an.State) {
+		st.Set("rg:fresh", "")
+		st.Set("rg:calls", "")
+		st.Set("rg:ran", "")
+		st.Set("rg:noidx", "")
+	}
 	nIfExec, nBody, nElse, nRange := 0, 0, 0, 0
 	hooks := an.Hooks{
+		Branch: func(x *an.Explorer, cond ast.Expr, val bool, st *an.State) {
+			e := an.Unparen(cond)
+			// dispatch on the node type: a new statement begins
+			if b, ok := e.(*ast.BinaryExpr); ok && b.Op == token.EQL && val {
+				switch an.Str(b.Y) {
+				case "NodeIf":
+					resetIf(st)
+				case "NodeRange":
+					resetRange(st)
+				}
+			}
+			// isTrue(<condition of the if>) decides the branch
+			if call, ok := e.(*ast.CallExpr); ok && an.IsCallTo(info, call, "jet.isTrue") && len(call.Args) == 1 {
+				arg := an.Unparen(call.Args[0])
+				isCond := false
+				if ac, ok := arg.(*ast.CallExpr); ok && isCondEval(ac) {
+					isCond = true
+				}
+				if _, ok := identIn(arg, condVars); ok {
+					isCond = true
+				}
+				if isCond {
+					if val {
+						st.Set("if:br", "T")
+					} else {
+						st.Set("if:br", "F")
+					}
+				}
+			}
+			// !ranger.ProvidesIndex()
+			neg := false
+			if u, ok := e.(*ast.UnaryExpr); ok && u.Op == token.NOT {
+				neg, e = true, an.Unparen(u.X)
+			}
+			if call, ok := e.(*ast.CallExpr); ok && an.IsCallTo(info, call, "(jet.Ranger).ProvidesIndex") {
+				if val == neg {
+					st.Set("rg:noidx", "1")
+				}
+			}
+		},
 		PreAssign: func(x *an.Explorer, lhs, rhs ast.Expr, stmt ast.Node, st *an.State) {
 			// entering an arm: `node := node.(*IfNode)` resets the per-statement registers
 			if ta, ok := an.Unparen(rhs).(*ast.TypeAssertExpr); ok && rhs != nil {
 				switch an.Str(ta.Type) {
 				case "*IfNode":
-					st.Set("if:cond", "")
-					st.Set("if:then", "")
-					st.Set("if:else", "")
+					resetIf(st)
 				case "*RangeNode":
-					st.Set("rg:fresh", "")
-					st.Set("rg:calls", "")
-					st.Set("rg:ran", "")
+					resetRange(st)
 				}
 			}
-			// range bindings inside the loop
-			if !in(rangeCC, stmt) {
+			if rhs == nil {
 				return
 			}
-			if p.FieldKey(info, lhs) == "Runtime.context" && rhs != nil && an.Str(rhs) != "context" {
-				if an.Str(rhs) != "rangeValue" {
-					addOnce(&bindBad, lhs.Pos(), "'.' is set to "+an.Str(rhs)+" in the range arm, not to the current element", st)
-				} else if !an.FactIs(st, "valVarSlot < 0", true) {
-					addOnce(&bindBad, lhs.Pos(), "'.' is set to the current element on a path where a value variable may exist (valVarSlot < 0 not established)", st)
-				} else {
-					st.Set("rg:ctx", "1")
+			// '.' becomes the current element exactly when there is no value variable
+			if p.FieldKey(info, lhs) == "Runtime.context" {
+				if _, isVal := identIn(rhs, valVars); isVal {
+					if valSlot == nil || !an.FactIs(st, valSlot.Name()+" < 0", true) {
+						addOnce(&bindBad, lhs.Pos(), "'.' is set to the current element on a path where a value variable may exist (value slot < 0 not established)", st)
+					} else {
+						st.Set("rg:ctx", "1")
+					}
+				} else if in(rangeCC, stmt) {
+					if _, restore := isRestoreSource(p, el, rhs, "Runtime.context"); !restore {
+						addOnce(&bindBad, lhs.Pos(), "'.' is set to "+an.Str(rhs)+" in the range arm, not to the current element", st)
+					}
 				}
 			}
-			if ix, ok := an.Unparen(lhs).(*ast.IndexExpr); ok && p.FieldKey(info, ix.X) == "scope.variables" && rhs != nil {
-				checkSlot(&bindBad, addOnce, st, an.Str(ix.Index), an.Str(rhs), lhs.Pos())
+			if ix, ok := an.Unparen(lhs).(*ast.IndexExpr); ok && p.FieldKey(info, ix.X) == "scope.variables" {
+				checkBind(st, ix.Index, rhs, lhs.Pos())
 			}
 		},
 		Call: func(x *an.Explorer, call *ast.CallExpr, st *an.State) {
 			name := an.CalleeName(info, call)
+			stmtKind, which := listKind(call)
 			switch {
-			case in(ifCC, call) && name == "(*jet.Runtime).evalPrimaryExpressionGroup" && argOf(call) == "node.Expression":
+			case isCondEval(call):
 				if st.Add("if:cond", 1) > 1 {
 					addOnce(&ifBad, call.Pos(), "the condition of an if is evaluated more than once", st)
 				}
-			case in(ifCC, call) && name == execList:
+			case stmtKind == "if":
 				nIfExec++
-				which := "if:then"
-				if argOf(call) == "node.ElseList" {
-					which = "if:else"
-					if !an.FactIs(st, "node.ElseList == nil", false) {
+				reg := "if:then"
+				switch {
+				case which == "else":
+					reg = "if:else"
+					if !elseNil(st) {
 						addOnce(&ifBad, call.Pos(), "the else list is executed without ElseList != nil having been established", st)
 					}
-				} else if argOf(call) != "node.List" {
-					addOnce(&ifBad, call.Pos(), "the if arm executes "+argOf(call)+", which is neither its then-list nor its else-list", st)
+					if st.Get("if:br") != "F" {
+						addOnce(&ifBad, call.Pos(), "the else list of an if is executed on a path that is not the false branch of isTrue(condition)", st)
+					}
+				case which == "then":
+					if st.Get("if:br") != "T" {
+						addOnce(&ifBad, call.Pos(), "the then list of an if is executed on a path that is not the true branch of isTrue(condition)", st)
+					}
+				default:
+					addOnce(&ifBad, call.Pos(), "the if arm executes "+an.Str(call.Args[0])+", which is neither its then-list nor its else-list", st)
 				}
 				if st.Int("if:cond") != 1 {
 					addOnce(&ifBad, call.Pos(), "a branch of an if is executed without its condition having been evaluated exactly once before", st)
 				}
-				st.Add(which, 1)
+				st.Add(reg, 1)
 				if st.Int("if:then")+st.Int("if:else") > 1 {
 					addOnce(&ifBad, call.Pos(), "a path through the if arm executes more than one branch (or one branch twice)", st)
 				}
-			case in(rangeCC, call) && name == "(jet.Ranger).Range":
+			case name == "(jet.Ranger).Range":
 				nRange++
 				// the previous element must have been consumed by a body execution (or be the end marker)
-				if st.Get("rg:fresh") == "1" && !an.FactIs(st, "end", true) {
+				if st.Get("rg:fresh") == "1" && !anyFact(st, endVars, true) {
 					addOnce(&loopBad, call.Pos(), "Range() is called again although the element returned by the previous call was not yet handed to the body: an element is skipped", st)
+				}
+				if st.Get("rg:noidx") != "" {
+					for k, v := range st.Facts {
+						if pk := an.PlainKey(k); v && strings.HasPrefix(pk, "1 < len(") && strings.HasSuffix(pk, ".Set.Left)") {
+							addOnce(&bindBad, call.Pos(), "a two-variable range over a ranger that provides no index does not reach an error: the variables are bound to the wrong things", st)
+						}
+					}
 				}
 				st.Set("rg:fresh", "1")
 				if st.Int("rg:calls") < 2 {
 					st.Add("rg:calls", 1)
 				}
-			case in(rangeCC, call) && name == execList && argOf(call) == "node.List":
+			case stmtKind == "range" && which == "then":
 				nBody++
 				if st.Get("rg:fresh") != "1" {
 					addOnce(&loopBad, call.Pos(), "the range body is executed again for an element that was already consumed (no Range() call in between)", st)
 				}
-				if !an.FactIs(st, "end", false) {
+				if !anyFact(st, endVars, false) {
 					addOnce(&loopBad, call.Pos(), "the range body can be executed although Range() reported end", st)
 				}
 				st.Set("rg:fresh", "")
 				st.Set("rg:ran", "1")
-			case in(rangeCC, call) && name == execList && argOf(call) == "node.ElseList":
+			case stmtKind == "range" && which == "else":
 				nElse++
-				if !an.FactIs(st, "end", true) || st.Int("rg:calls") != 1 || st.Get("rg:ran") != "" {
+				if !anyFact(st, endVars, true) || st.Int("rg:calls") != 1 || st.Get("rg:ran") != "" {
 					addOnce(&loopBad, call.Pos(), "the else list of a range is executed on a path where the first Range() did not report end (it must run exactly when there are no elements)", st)
 				}
-				if !an.FactIs(st, "node.ElseList == nil", false) {
+				if !elseNil(st) {
 					addOnce(&loopBad, call.Pos(), "the else list is executed without ElseList != nil having been established", st)
 				}
-			case in(rangeCC, call) && name == "(*jet.Runtime).executeSet" && len(call.Args) == 2:
-				checkSlot(&bindBad, addOnce, st, an.Str(call.Args[0]), an.Str(call.Args[1]), call.Pos())
+			case name == "(*jet.Runtime).executeSet" && len(call.Args) == 2:
+				checkBind(st, call.Args[0], call.Args[1], call.Pos())
 			}
 		},
 	}
@@ -185,39 +420,15 @@ func runC05(c *an.Ctx) {
 			c.Bad(rule, key, b.pos, b.trail, "%s", b.msg)
 		}
 	}
-	report("C05.if", "(*Runtime).executeList/case NodeIf", ifCC.Pos(), ifBad, "the condition is evaluated once and exactly one branch (or none) is executed")
+	report("C05.if", "(*Runtime).executeList/case NodeIf", ifCC.Pos(), ifBad, "the condition is evaluated once, the then-list runs only in the true branch of isTrue(condition), the else-list only in its false branch, and exactly one of them (or none) is executed")
 	report("C05.loop", "(*Runtime).executeList/case NodeRange", rangeCC.Pos(), loopBad, "every element returned by Range() is handed to the body exactly once; the else list runs only for an empty range")
-	report("C05.bind", "(*Runtime).executeList/case NodeRange", rangeCC.Pos(), bindBad, "key/value variables and '.' are bound to the current element as documented")
+	report("C05.bind", "(*Runtime).executeList/case NodeRange", rangeCC.Pos(), bindBad, "key/value variables and '.' are bound to the current element as documented; a two-variable range over an index-less ranger is an error")
 	c.Expect("C05.if", "branch executions in the if arm (state visits)", nIfExec, 2)
 	c.Expect("C05.loop", "body executions / Range calls / else executions in the range arm (state visits)", min3(nBody, nRange, nElse), 1)
-
-	// structural part of C05.if: then in the true branch of isTrue(condition), else in its false branch
-	okShape := false
-	armInspect(el, ifCC, func(n ast.Node) bool {
-		is, ok := n.(*ast.IfStmt)
-		if !ok || strings.ReplaceAll(an.Str(is.Cond), " ", "") != "isTrue(st.evalPrimaryExpressionGroup(node.Expression))" {
-			return true
-		}
-		thenOK, elseOK := false, false
-		ast.Inspect(is.Body, func(m ast.Node) bool {
-			if call, ok := m.(*ast.CallExpr); ok && an.CalleeName(info, call) == execList && argOf(call) == "node.List" {
-				thenOK = true
-			}
-			return true
-		})
-		if is.Else != nil {
-			ast.Inspect(is.Else, func(m ast.Node) bool {
-				if call, ok := m.(*ast.CallExpr); ok && an.CalleeName(info, call) == execList && argOf(call) == "node.ElseList" {
-					elseOK = true
-				}
-				return true
-			})
-		}
-		okShape = thenOK && elseOK
-		return true
-	})
-	c.Check(okShape, "C05.if", "(*Runtime).executeList/case NodeIf/branches", ifCC.Pos(), "the then-list is executed in the true branch of isTrue(condition), the else-list in its false branch",
-		"the if arm does not execute its then-list under isTrue(condition) and its else-list in the else of that very test")
+	c.Expect("C05.bind", "loop variables of Range() results (index, value, end)", min3(len(idxVars), len(valVars), len(endVars)), 1)
+	if valSlot == nil {
+		c.Anchor("C05.bind", "binding of the range value variable through Set.Left[slot]")
+	}
 
 	// loop condition: conjuncts other than !end
 	armInspect(el, rangeCC, func(n ast.Node) bool {
@@ -227,41 +438,41 @@ func runC05(c *an.Ctx) {
 		}
 		hasEnd := false
 		for _, cj := range conjuncts(fs.Cond) {
+			if u, ok := an.Unparen(cj).(*ast.UnaryExpr); ok && u.Op == token.NOT {
+				if _, isEnd := identIn(u.X, endVars); isEnd {
+					hasEnd = true
+					continue
+				}
+				// !tmp.IsValid() with tmp the value of the body execution (or the list's result)
+				if call, ok := an.Unparen(u.X).(*ast.CallExpr); ok && an.CalleeName(info, call) == "(reflect.Value).IsValid" {
+					if _, isTmp := identIn(an.Receiver(call), bodyTmp); isTmp {
+						c.Bad("C05.loop", "(*Runtime).executeList/range-stops-at-first-return", cj.Pos(), nil,
+							"the range loop also stops when its body executed a {{return}} (`%s`): `{{range slice(1,2,3)}}{{.}}{{return .}}{{end}}` renders `1`, not `123`", an.Str(cj))
+						continue
+					}
+				}
+			}
 			s := strings.ReplaceAll(an.Str(cj), " ", "")
-			if s == "!end" {
-				hasEnd = true
-				continue
-			}
-			if s == "!rangeReturn.IsValid()" || s == "!returnValue.IsValid()" {
-				c.Bad("C05.loop", "(*Runtime).executeList/range-stops-at-first-return", cj.Pos(), nil,
-					"the range loop also stops when its body executed a {{return}} (`%s`): `{{range slice(1,2,3)}}{{.}}{{return .}}{{end}}` renders `1`, not `123`", an.Str(cj))
-				continue
-			}
 			c.Bad("C05.loop", "(*Runtime).executeList/loop-condition:"+s, cj.Pos(), nil, "the range loop continues only while `%s` holds: the body does not run once per element", an.Str(cj))
+		}
+		if !hasEnd {
+			// not every for statement of the arm is the element loop: only one that executes the body
+			isElementLoop := false
+			ast.Inspect(fs.Body, func(m ast.Node) bool {
+				if call, ok := m.(*ast.CallExpr); ok {
+					if k, w := listKind(call); k == "range" && w == "then" {
+						isElementLoop = true
+					}
+				}
+				return true
+			})
+			if !isElementLoop {
+				return true
+			}
 		}
 		c.Check(hasEnd, "C05.loop", "(*Runtime).executeList/loop-condition", fs.Pos(), "the loop runs while the ranger has not reported end", "the range loop condition does not test the ranger's end result")
 		return true
 	})
-
-	// two-variable range over an index-less ranger
-	okTwo := false
-	armInspect(el, rangeCC, func(n ast.Node) bool {
-		is, ok := n.(*ast.IfStmt)
-		if !ok || strings.ReplaceAll(an.Str(is.Cond), " ", "") != "!ranger.ProvidesIndex()" {
-			return true
-		}
-		if len(is.Body.List) == 1 {
-			if inner, ok := is.Body.List[0].(*ast.IfStmt); ok && strings.ReplaceAll(an.Str(inner.Cond), " ", "") == "isSet&&len(node.Set.Left)>1" && len(inner.Body.List) >= 1 {
-				if es, ok := inner.Body.List[len(inner.Body.List)-1].(*ast.ExprStmt); ok {
-					if call, ok := es.X.(*ast.CallExpr); ok && p.CallNeverReturns(info, call) {
-						okTwo = true
-					}
-				}
-			}
-		}
-		return true
-	})
-	c.Check(okTwo, "C05.bind", "(*Runtime).executeList/two-var-without-index", rangeCC.Pos(), "a two-variable range over a ranger without index is an error", "a two-variable range over a ranger that provides no index does not reach an error: the variables are bound to the wrong things")
 
 	rangerPools(c, "C05.pool")
 	c05rangers(c)
@@ -370,7 +581,15 @@ func c05rangers(c *an.Ctx) {
 					}
 				}
 			}
-			endPath := an.FactIs(ex.State, "end", true)
+			// does this exit report end? (third result: an explicit constant, or the named result's last value)
+			endPath := false
+			if ex.Ret != nil && len(ex.Ret.Results) == 3 {
+				if v, known := x.Truth(ex.Ret.Results[2], ex.State); known && v {
+					endPath = true
+				}
+			} else if f.Sig != nil && f.Sig.Results().Len() == 3 && f.Sig.Results().At(2).Name() != "" {
+				endPath = an.FactIs(ex.State, f.Sig.Results().At(2).Name(), true)
+			}
 			switch {
 			case endPath && total != 0:
 				ok, why = false, "advances its cursor on the path that reports end"
